@@ -1,17 +1,25 @@
 #!/bin/bash
 # Determinism campaign: every property, several VERIF_SEED values, two worker counts, fresh
 # processes; the merged run digest (a function of every run's counters and violations, merged in
-# run-index order) must be identical. Usage: ./determinism.sh [seeds...]   (default: 1 2 3)
+# run-index order) must be identical, and no run may report an unknown violation.
+# Usage: ./determinism.sh [seeds...]   (default: 1 2 3); output also goes to determinism.last.txt
 cd "$(dirname "$0")"
 export VERIF_ROOT="$(pwd)"
 seeds="${@:-1 2 3}"
 (cd sim && cargo build --release --offline >/dev/null 2>&1 && cargo build --profile relchk --offline >/dev/null 2>&1) || { echo "build failed"; exit 2; }
 fail=0
+out=determinism.last.txt
+echo "# determinism campaign $(date -u +%Y-%m-%dT%H:%MZ), seeds: $seeds, workers 16 vs 3" > $out
 for id in C02 C03 C04 C05 C06 C08 C09 C10 C11 C12 C14 C16 C17 C18 C19 C15 C01 C07; do
   for s in $seeds; do
-    a=$(VERIF_SEED=$s VERIF_WORKERS=16 sim/target/release/psim $id noevidence=1 2>/dev/null | grep -o "digest=[0-9a-f]*" | tail -1)
-    b=$(VERIF_SEED=$s VERIF_WORKERS=3 sim/target/release/psim $id noevidence=1 2>/dev/null | grep -o "digest=[0-9a-f]*" | tail -1)
-    if [ "$a" = "$b" ] && [ -n "$a" ]; then echo "$id seed=$s OK $a"; else echo "$id seed=$s DIVERGED 16w:$a 3w:$b"; fail=1; fi
+    a=$(VERIF_SEED=$s VERIF_WORKERS=16 sim/target/release/psim $id noevidence=1 2>/dev/null | tail -1)
+    ra=$?
+    b=$(VERIF_SEED=$s VERIF_WORKERS=3 sim/target/release/psim $id noevidence=1 2>/dev/null | tail -1)
+    da=$(echo "$a" | grep -o "digest=[0-9a-f]*"); db=$(echo "$b" | grep -o "digest=[0-9a-f]*")
+    ua=$(echo "$a" | grep -o "unknown_violations=[0-9]*")
+    if [ "$da" = "$db" ] && [ -n "$da" ]; then line="$id seed=$s OK $da $ua"; else line="$id seed=$s DIVERGED 16w:$da 3w:$db"; fail=1; fi
+    echo "$line"; echo "$line" >> $out
+    case "$ua" in unknown_violations=0) ;; *) fail=1;; esac
   done
 done
 exit $fail
